@@ -108,8 +108,10 @@ class Build:
         # the translated decision logic (config.py matchers, _SessionStorage): regenerated from the source text as well
         logic = os.path.join(VERIF, "theories/Generated/LogicGen.v")
         rc, out = sh(f"/venv/bin/python -B harness/gen_logic.py {logic}", env=env)
+        self.logic_aborted = None
         if rc != 0:
             self.logic_status = "fallback (translation aborted: %s) - the translated-source tie is OFF for this run" % out.strip()[-300:]
+            self.logic_aborted = out.strip()[-300:]
             sh("git checkout -- theories/Generated/LogicGen.v")
         else:
             rc2, _ = sh("git diff --quiet -- theories/Generated/LogicGen.v")
